@@ -45,7 +45,8 @@ type hRun struct {
 	Same    bool     `json:"same"`     // uses the Bytecode object of the previous run
 	Args    []string `json:"args"`
 	Kind    string   `json:"kind"`
-	Host    bool     `json:"host"` // needs host callbacks or modules: not expressible in the model
+	Host    bool     `json:"host"`  // needs host callbacks or modules: not expressible in the model
+	Strip   bool     `json:"strip"` // source maps removed (the encoder supports such Bytecode): impl-only
 
 	bc   *ugo.Bytecode
 	args []ugo.Object
@@ -111,6 +112,14 @@ func (h *hRun) compile() error {
 	}
 	if err != nil {
 		return err
+	}
+	if h.Strip {
+		bc.Main.SourceMap = nil
+		for _, k := range bc.Constants {
+			if f, ok := k.(*ugo.CompiledFunction); ok {
+				f.SourceMap = nil
+			}
+		}
 	}
 	h.bc = bc
 	return nil
@@ -597,8 +606,12 @@ func genHistory(r *gen.Rand, model bool) *history {
 	}
 	hs.Runs = append(hs.Runs, obs)
 	if !model {
+		strip := r.Intn(4) == 0 // a quarter of the impl-only histories run Bytecode without source maps
 		for _, h := range hs.Runs {
 			h.Host = true // one module map / host globals for the whole history
+			if strip && !h.Same {
+				h.Strip = true
+			}
 		}
 	}
 	return hs
